@@ -41,6 +41,7 @@ def build(config, verbose=False):
     """(Re)build the harness from /repo's working tree in one configuration.  Returns (ok, log)."""
     args, tdir, _ = CONFIGS[config]
     with lib.build_lock("lock-cargo-utilh-" + config):
+        lib.point_manifest(UTILH)
         lock_src = os.path.join(lib.REPO, "Cargo.lock")
         lock_dst = os.path.join(UTILH, "Cargo.lock")
         if os.path.exists(lock_src) and not os.path.exists(lock_dst):
